@@ -190,7 +190,10 @@ fn records(t: &mut Tape, obs: &mut Obs) -> R {
     let version = gen_version(t);
     let from_parse = t.chance(80);
     let (ctype, msgs): (u8, Vec<MMsg>) = if t.chance(50) {
-        (0x14, vec![MMsg::Ccs; 1 + t.small(5)])
+        (0x14, vec![MMsg::Ccs; 1 + t.count(RECORD_CAP - 1)])
+    } else if t.chance(6) {
+        // thousands of minimal handshake messages (HelloRequest is the only 4-byte serializable message)
+        (0x16, vec![MMsg::Hs(MHs::HelloRequest); 1 + t.count(RECORD_CAP / 4 - 1)])
     } else {
         let n = 1 + t.small(5);
         let mut v = Vec::new();
@@ -259,6 +262,19 @@ fn records(t: &mut Tape, obs: &mut Obs) -> R {
 }
 
 fn gen_ser_ext(t: &mut Tape) -> MExt {
+    if t.chance(4) {
+        // extension data at and just below the largest representable size (65535 bytes)
+        return match t.below(3) {
+            0 => MExt::Sni(vec![(0, vec![b'a'; t.pick(&[65530usize, 65529, 65528])])]),
+            1 => {
+                // 6553 seven-byte names + one filler name: list of exactly 65533 bytes -> extension data 65535
+                let mut l: Vec<(u8, Vec<u8>)> = (0..6553).map(|_| (0u8, vec![b'x'; 7])).collect();
+                l.push((0, vec![]));
+                MExt::Sni(l)
+            }
+            _ => MExt::EllipticCurves((0..t.pick(&[32766usize, 32765])).map(|i| i as u16).collect()),
+        };
+    }
     match t.below(3) {
         0 => {
             let n = t.small(6);
